@@ -129,11 +129,11 @@ func dumpData(d any) string {
 		}
 		return "S:" + joinOr(",", ss)
 	case time.Time:
-		return "ds:" + hexStr(v.Format(gmDateFormat))
+		return "ds:" + hexStr(v.UTC().Format(gmDateFormat)) // (GPMF dates are UTC: shown as the instant they are)
 	case []time.Time:
 		ss := make([]string, len(v))
 		for i, t := range v {
-			ss[i] = hexStr(t.Format(gmDateFormat))
+			ss[i] = hexStr(t.UTC().Format(gmDateFormat))
 		}
 		return "dv:" + joinOr(",", ss)
 	case gpmf.Scale:
@@ -234,7 +234,9 @@ func gmRead(data []byte) string {
 		var es []*gpmf.Element
 		cls, _ := classify(func() error {
 			var err error
-			es, err = gpmf.NewReader().Read(bytes.NewReader(data))
+			rd, done := readerFor(data, true)
+			defer done()
+			es, err = gpmf.NewReader().Read(rd)
 			return err
 		})
 		if cls == "ok" {
@@ -394,6 +396,9 @@ var gmOtherKeys = []string{"ABCD", "SHUT", "WBAL", "ISOG", "STMP", "TICK", "VERS
 // gmBig: also generate payloads beyond 64 KiB (the C06 stream; they make the other streams slow)
 var gmBig bool
 
+// gmBigSensors: sensor payloads beyond 64 KiB (the C07 and C09 streams)
+var gmBigSensors bool
+
 func gmLeaf(r *rng, s *sink) []byte {
 	t := gmTypes[r.intn(len(gmTypes))]
 	key := pick(r, gmOtherKeys)
@@ -532,6 +537,15 @@ func gmSensor(r *rng, s *sink) [][]byte {
 		}
 	}
 	nsamp := r.intn(5)
+	if gmBigSensors && r.chance(1, 120) {
+		// a long recording interval: the sensor payload passes 64 KiB (size x repeat beyond 16 bits),
+		// also with the largest repeat counts there are
+		nsamp = pick(r, []int{65536/(raw.w*sens.w) + 1 + r.intn(50), 32768, 65535})
+		if nsamp*raw.w*sens.w > 1<<20 {
+			nsamp = (1 << 20) / (raw.w * sens.w)
+		}
+		s.count("gm.sensor.big")
+	}
 	nvals := nsamp * sens.w
 	if r.chance(1, 40) {
 		nvals += 1 + r.intn(2) // not a multiple of the sample width
@@ -622,6 +636,17 @@ func gmFace(r *rng) [][]byte {
 	out := [][]byte{klv("TYPE", 'c', 1, len(def.s), []byte(def.s))}
 	if r.chance(1, 40) {
 		out = nil // missing type definition
+	}
+	if r.chance(1, 25) {
+		// a type definition that is a list of strings — with one, several or no entries at all
+		sz := pick(r, []int{len(def.s), 5, 4, 0})
+		cnt := pick(r, []int{0, 0, 1, 2})
+		ch := pick(r, []byte{'c', 'c', 'F', 'G'})
+		pl := make([]byte, sz*cnt)
+		for i := 0; i < cnt; i++ {
+			copy(pl[i*sz:], def.s)
+		}
+		out = [][]byte{klv("TYPE", ch, sz, cnt, pl)}
 	}
 	out = append(out, klv("FACE", '?', size, n, gmValueBytes(r, size*n)))
 	return out
@@ -760,6 +785,7 @@ func gmTopBoundaries(data []byte) map[int]bool {
 func genGM(cfg *config, r *rng, i int, s *sink) string {
 	gmLoadCaptures(cfg)
 	gmBig = cfg.prop == "C06" || cfg.prop == "C09"
+	gmBigSensors = cfg.prop == "C07" || cfg.prop == "C09"
 	stream := []string{"wf", "wf", "wf", "wf", "wf", "mut", "mut", "mutcap", "rand", "wf"}[i%10]
 	switch cfg.prop {
 	case "C09":
